@@ -5,8 +5,10 @@ package dkgcheck
 
 import (
 	"bytes"
+	"encoding/json"
 	"fmt"
 	"math/big"
+	"os"
 	"regexp"
 	"sort"
 	"strings"
@@ -586,4 +588,66 @@ func parseVector(data []byte, t int) ([]refbls.G2, bool) {
 	}
 	vecCache.Store(string(data), out)
 	return out.v, out.ok
+}
+
+// ReplayFile re-executes one recorded violation (configuration, script, path) from scratch on
+// fresh real instances WITHOUT the explorer, cloning or memoisation, prints what happens at every
+// step and evaluates the oracles of `prop` on the terminal state reached.
+func ReplayFile(run *ev.Run, prop string) {
+	b, err := os.ReadFile(run.Replay)
+	if err != nil {
+		run.Fatal("replay: %v", err)
+	}
+	var f struct {
+		Key    string     `json:"key"`
+		Replay replayFile `json:"replay"`
+	}
+	if err := json.Unmarshal(b, &f); err != nil {
+		run.Fatal("replay: %v", err)
+	}
+	rp := f.Replay
+	if rp.N == 0 {
+		run.Fatal("replay: not a DKG system trace (plain-VSS histories are re-run by the normal run)")
+	}
+	cfg := &dkgsys.Config{Proto: dkgsys.Protocol(rp.Proto), N: rp.N, T: rp.T, Dealer: rp.Dealer, Byz: rp.Byz, Seed: rp.Seed}
+	sc := dkgsys.Script(rp.Dev)
+	st, evs, err := dkgsys.Replay(cfg, sc, rp.Path)
+	if err != nil {
+		run.Fatal("replay: %v", err)
+	}
+	fmt.Printf("replay of %s, script %s, %d steps\n", cfg, sc, len(rp.Path))
+	c := &checker{run: run, prop: prop, keyOK: map[string]bool{}, outcomes: map[string]int{}}
+	for i, es := range evs {
+		step := "init"
+		if i > 0 {
+			step = rp.Path[i-1].String()
+		}
+		for _, e := range es {
+			fmt.Printf("  step %d %-24s %s reporter=%d target=%d %s\n", i, step, e.Kind, e.Reporter, e.Target, e.Log)
+		}
+		p := rp.Path[:i]
+		c.edge(cfg, sc, st, es, func() []dkgsys.Trans { return p })
+	}
+	run.Add("transitions", int64(len(rp.Path)))
+	run.Add("states", int64(len(rp.Path)+1))
+	run.Add("traces_validated_against_impl", 1)
+	run.Set("evaluations", int64(len(rp.Path)))
+	run.Distinct("replay/1")
+	run.Distinct("replay/2")
+	run.Sample(rp)
+	run.Set("rule", "replay of one recorded trace, clone-free on fresh instances")
+	if st.Phase == 4 {
+		fmt.Printf("  terminal outcome: %s\n", st.Outcome())
+		c.terminal(cfg, sc, &dkgsys.Terminal{State: st, Path: rp.Path})
+	} else {
+		fmt.Printf("  trace ends in phase %d (not terminal)\n", st.Phase)
+	}
+	for _, n := range st.Nodes {
+		if n != nil {
+			for _, l := range n.Rec.Logs {
+				fmt.Println("  log:", l)
+			}
+		}
+	}
+	run.Finish()
 }
